@@ -16,13 +16,21 @@ func c13JSONBody(w *zzWorld) []byte {
 	iid := w.bright.Characteristic.ID
 	num := zzFinite("num")
 	shapes := []func() interface{}{
-		func() interface{} { return []interface{}{1.0, "x"} },                                                    // top-level array
-		func() interface{} { return map[string]interface{}{"characteristics": num} },                             // not an array
-		func() interface{} { return map[string]interface{}{"characteristics": []interface{}{num, "x", nil}} },     // entries not objects
-		func() interface{} { return map[string]interface{}{"characteristics": []interface{}{map[string]interface{}{"aid": "1", "iid": iid, "value": 1.0}}} }, // aid as string
-		func() interface{} { return map[string]interface{}{"characteristics": []interface{}{map[string]interface{}{"aid": -1.0, "iid": iid}}} },              // negative id
-		func() interface{} { return map[string]interface{}{"characteristics": []interface{}{map[string]interface{}{"aid": 1e300, "iid": iid}}} },             // huge id
-		func() interface{} { return map[string]interface{}{"characteristics": []interface{}{map[string]interface{}{"aid": 1.5, "iid": iid}}} },               // fractional id
+		func() interface{} { return []interface{}{1.0, "x"} },                                                 // top-level array
+		func() interface{} { return map[string]interface{}{"characteristics": num} },                          // not an array
+		func() interface{} { return map[string]interface{}{"characteristics": []interface{}{num, "x", nil}} }, // entries not objects
+		func() interface{} {
+			return map[string]interface{}{"characteristics": []interface{}{map[string]interface{}{"aid": "1", "iid": iid, "value": 1.0}}}
+		}, // aid as string
+		func() interface{} {
+			return map[string]interface{}{"characteristics": []interface{}{map[string]interface{}{"aid": -1.0, "iid": iid}}}
+		}, // negative id
+		func() interface{} {
+			return map[string]interface{}{"characteristics": []interface{}{map[string]interface{}{"aid": 1e300, "iid": iid}}}
+		}, // huge id
+		func() interface{} {
+			return map[string]interface{}{"characteristics": []interface{}{map[string]interface{}{"aid": 1.5, "iid": iid}}}
+		}, // fractional id
 		func() interface{} {
 			return map[string]interface{}{"characteristics": []interface{}{map[string]interface{}{"aid": w.acc.ID, "iid": iid, "value": []interface{}{[]interface{}{num}}, "ev": num}}}
 		}, // nested value, numeric ev
@@ -36,8 +44,10 @@ func c13JSONBody(w *zzWorld) []byte {
 			e := map[string]interface{}{"aid": w.acc.ID, "iid": w.on.Characteristic.ID, "value": []interface{}{num}}
 			return map[string]interface{}{"characteristics": []interface{}{e, e}}
 		}, // the same composite twice
-		func() interface{} { return map[string]interface{}{"characteristics": []interface{}{map[string]interface{}{}}} }, // empty entry
-		func() interface{} { return nil },                                                                                  // null
+		func() interface{} {
+			return map[string]interface{}{"characteristics": []interface{}{map[string]interface{}{}}}
+		}, // empty entry
+		func() interface{} { return nil }, // null
 	}
 	k := verif.Choice("shape", len(shapes)+2)
 	verif.Fact("shape", string(rune('a'+k)))
